@@ -284,6 +284,73 @@ macro_rules! prims {
             let s = if trail { s.allow_trailing() } else { s };
             s.collect::<Vec<Tr>>().map(|v: Vec<Tr>| Tr::list(&v))
         }
+        pub fn rep_unit<'a>(
+            a: impl Parser<'a, I<'a>, Tr, X<'a>> + Clone,
+            lo: usize,
+            hi: usize,
+        ) -> impl Parser<'a, I<'a>, Tr, X<'a>> + Clone {
+            a.repeated().at_least(lo).at_most(hi).to_slice().map(|s: &[u8]| Tr::unit().push(0xC0 | (s.len() as u8 & 0x0f)))
+        }
+        /// unbounded: with lo == 0 this takes the fast loop of `Repeated::go`, otherwise the counted path
+        pub fn rep_unit_inf<'a>(
+            a: impl Parser<'a, I<'a>, Tr, X<'a>> + Clone,
+            lo: usize,
+        ) -> impl Parser<'a, I<'a>, Tr, X<'a>> + Clone {
+            a.repeated().at_least(lo).to_slice().map(|s: &[u8]| Tr::unit().push(0xC0 | (s.len() as u8 & 0x0f)))
+        }
+        #[allow(clippy::too_many_arguments)]
+        pub fn sep_unit<'a>(
+            item: impl Parser<'a, I<'a>, Tr, X<'a>> + Clone,
+            separator: impl Parser<'a, I<'a>, Tr, X<'a>> + Clone,
+            lo: usize,
+            hi: usize,
+            lead: bool,
+            trail: bool,
+        ) -> impl Parser<'a, I<'a>, Tr, X<'a>> + Clone {
+            let s = item.separated_by(separator).at_least(lo).at_most(hi);
+            let s = if lead { s.allow_leading() } else { s };
+            let s = if trail { s.allow_trailing() } else { s };
+            s.to_slice().map(|s: &[u8]| Tr::unit().push(0xC0 | (s.len() as u8 & 0x0f)))
+        }
+        #[allow(clippy::too_many_arguments)]
+        pub fn sep_count<'a>(
+            item: impl Parser<'a, I<'a>, Tr, X<'a>> + Clone,
+            separator: impl Parser<'a, I<'a>, Tr, X<'a>> + Clone,
+            lo: usize,
+            hi: usize,
+            lead: bool,
+            trail: bool,
+        ) -> impl Parser<'a, I<'a>, Tr, X<'a>> + Clone {
+            let s = item.separated_by(separator).at_least(lo).at_most(hi);
+            let s = if lead { s.allow_leading() } else { s };
+            let s = if trail { s.allow_trailing() } else { s };
+            s.count().map(|n: usize| Tr::unit().push(0xC0 | (n as u8 & 0x0f)))
+        }
+        pub fn collect_ex2<'a>(
+            a: impl Parser<'a, I<'a>, Tr, X<'a>> + Clone,
+        ) -> impl Parser<'a, I<'a>, Tr, X<'a>> + Clone {
+            a.repeated().collect_exactly::<[Tr; 2]>().map(|v: [Tr; 2]| Tr::list(&v))
+        }
+        pub fn enum_<'a>(
+            a: impl Parser<'a, I<'a>, Tr, X<'a>> + Clone,
+            lo: usize,
+            hi: usize,
+        ) -> impl Parser<'a, I<'a>, Tr, X<'a>> + Clone {
+            a.repeated().at_least(lo).at_most(hi).enumerate().collect::<Vec<(usize, Tr)>>().map(|v: Vec<(usize, Tr)>| {
+                let mut t = Tr::unit().push(0xC0 | (v.len() as u8 & 0x0f));
+                let mut i = 0;
+                while i < v.len() {
+                    t = t.cat(v[i].1.push(v[i].0 as u8));
+                    i += 1;
+                }
+                t
+            })
+        }
+        pub fn lazy_<'a>(
+            a: impl Parser<'a, I<'a>, Tr, X<'a>> + Clone,
+        ) -> impl Parser<'a, I<'a>, Tr, X<'a>> + Clone {
+            a.lazy()
+        }
         /// any().repeated() used as a unit parser (the unbounded fast loop), observed through to_slice
         pub fn rest<'a>() -> impl Parser<'a, I<'a>, Tr, X<'a>> + Clone {
             any::<I<'a>, X<'a>>()
